@@ -4,6 +4,8 @@ student submissions, gradings and histories.  Everything is a plain JSON-able va
 the rng handed in.
 """
 
+import os
+
 H = "from pedal import *\n"
 
 # --------------------------------------------------------------------------------------------------
@@ -28,6 +30,10 @@ SUBMISSIONS = {
     "sections": "a = 1\nprint(a)\n##### Part 1\nb = 2\nprint(b)\n##### Part 2\nc = 3\nprint(c + 1)\n",
     "sections_bad": "a = 1\n##### Part 1\nprint(zzz)\n##### Part 2\nprint(2)\n",
     "openf": "print(open('data.txt').read())\n",
+    # section markers at the edges: an empty prologue, a last section without a newline, CRLF inside a section
+    "sections_edge": "##### Part 1\nb = 2\nprint('one', b)\n##### Part 2\nc = b + 3\nprint('two', c)",
+    "sections_long": "import math\na = 1\nprint('prologue', a)\n##### Part 1\nb = a + 1\nprint('one', b)\n##### Part 2\nc = b + 3\n"
+                     "print('two', c)\n##### Part 3\nprint(math.floor(c / 2))\n",
     "imports": "import os\nimport math\nprint(math.sqrt(4))\n",
     "mathuse": "import math\nprint(math.extra)\n",
     "mathpi": "import math\nx = math.pi + 1\nprint(x)\n",
@@ -133,6 +139,17 @@ FRAGMENTS = [
     ("group", "MAIN_REPORT.start_group('g1')\ngently('in group')\n"),
     ("sections", "separate_into_sections(independent=True)\nnext_section()\nverify()\nrun()\nprint(repr(student.output))\nnext_section()\nrun()\nprint(repr(student.output))\n"),
     ("sections_nostop", "separate_into_sections()\nnext_section()\nrun()\n"),
+    # accumulating sections (independent=False), resolved normally / stopped by the script / resolved by the script /
+    # stopped after the prologue / asked for one section too many / reached through set_source ... restore_code
+    ("sections_dep", "separate_into_sections(independent=False)\nnext_section()\nverify()\nrun()\nprint(repr(student.output))\nnext_section()\nverify()\nrun()\nprint(repr(student.output))\n"),
+    ("sections_dep_stop", "from pedal.source.sections import stop_sections\nseparate_into_sections(independent=False)\nnext_section()\nrun()\nstop_sections()\nrun()\nprint(repr(student.output))\n"),
+    ("sections_dep_resolved", "separate_into_sections(independent=False)\nnext_section()\nrun()\nresolve()\nprint(len(get_submission().main_code))\n"),
+    ("sections_dep_prologue", "separate_into_sections(independent=False)\nverify()\nrun()\nprint(repr(student.output))\n"),
+    ("sections_dep_toofar", "from pedal.source.sections import check_section_exists\nseparate_into_sections(independent=False)\ncheck_section_exists(5)\nfor _verif_i in range(5):\n    next_section()\n"),
+    ("sections_pattern", "separate_into_sections(pattern=r'^(print.+)$', independent=False)\nnext_section()\nrun()\nprint(repr(student.output))\n"),
+    ("set_source_restore", "from pedal.source.source import restore_code\nset_source('print(3)')\nrun()\nprint(repr(student.output))\nrestore_code()\nrun()\nprint(repr(student.output))\n"),
+    ("set_source_file", "from pedal.source.source import restore_code\nset_source('print(4)', filename='other.py')\nrun()\nrestore_code()\n"),
+    ("submission_read", "_verif_s = get_submission()\nprint(repr(_verif_s.main_file), len(_verif_s.main_code), sorted(_verif_s.files), _verif_s.line_offsets)\n"),
     ("sections_toofar", "separate_into_sections()\nnext_section()\nnext_section()\nnext_section()\nnext_section()\n"),
     # report-level commands
     ("resolve_early", "resolve()\n"),
@@ -191,11 +208,13 @@ def gen_grading(rng):
 
 def key(g):
     return (g["script"], g["code"], g.get("env", "standard"), bool(g.get("skip_tifa")), bool(g.get("skip_run")),
-            g.get("main_file", "answer.py"))
+            g.get("main_file", "answer.py"), bool(g.get("share")), tuple(sorted((g.get("files") or {}).items())), bool(g.get("report_id")))
 
 
 def wire(g):
-    return {k: g[k] for k in ("script", "code", "env", "skip_tifa", "skip_run", "main_file") if k in g}
+    return {k: g[k] for k in ("script", "code", "env", "skip_tifa", "skip_run", "main_file", "files", "share", "share_id",
+                                  "report_id")
+            if k in g}
 
 
 # --------------------------------------------------------------------------------------------------
@@ -256,6 +275,180 @@ CORPUS = [
     ("exit-then-plain", [G(["crash_exit"], "exit"), G(["student_out"], "printer")]),
     ("recursion-then-plain", [G(["nothing"], "recursion"), G(["student_out"], "globals")]),
 ]
+
+# --------------------------------------------------------------------------------------------------
+# objects the CALLER owns and hands in again: the same Submission object (share="sub") or a new Submission around the
+# same files dict (share="files") graded several times - what VerifyPipeline does with every bundle and what a run
+# of several scripts over one submission does.  State that survives in THOSE objects is invisible to histories that
+# build a fresh Submission for every grading.
+
+#: the inputs below show behaviours of the UNCHANGED tree (reported, see notes/C13.md "round 4"); they are generated
+#: only behind the gate: VERIF_C13_REUSE_GATED=1 (all of them) or a comma-separated list of the reasons below
+# default: the two behaviours repaired by /repo commits 499dd90 and 2b2e554 are ordinary inputs now; the other reasons
+# (open findings / exempt) stay behind the switch
+_GATE = os.environ.get("VERIF_C13_REUSE_GATED", "independent-sections-leave-line-offsets,"
+                       "sections-with-an-explicit-report-are-not-stopped-at-resolve")
+REUSE_GATED = _GATE in ("1", "all")
+_INDEPENDENT_SECTIONS = ("sections", "sections_nostop", "sections_toofar")     # independent=True: line offsets stay behind
+_SECTION_FRAGS = tuple(n for n, _ in FRAGMENTS if n.startswith("sections"))
+_SOURCE_NOT_RESTORED = ("set_source",)                                          # set_source() without restore_code()
+
+
+def reuse_gated_reasons(g, fresh=None):
+    """why this grading is not given caller-owned objects by default ([] = it is); with its fresh result: also
+    whether the script turned out to raise while sections were active"""
+    frags = g.get("frags") or []
+    out = []
+    if any(f in _INDEPENDENT_SECTIONS for f in frags):
+        out.append("independent-sections-leave-line-offsets")
+    if "xr_sections" in frags:
+        out.append("sections-with-an-explicit-report-are-not-stopped-at-resolve")
+    if any(f in _SOURCE_NOT_RESTORED for f in frags):
+        out.append("set_source-without-restore_code")
+    if "set_source_file" in frags or ("set_source_restore" in frags and g.get("main_file", "answer.py") != "answer.py"):
+        out.append("set_source-under-another-filename-leaves-that-file")
+    secs = [i for i, f in enumerate(frags) if f in _SECTION_FRAGS or f == "xr_sections"]
+    if secs and (any(f in CRASHES or f in ("xr_crash", "ov_bad") for f in frags[secs[0] + 1:])
+                 or (fresh is not None and (fresh.get("error") or "raised" in fresh))):
+        out.append("crash-while-sections-are-active")
+    return out
+
+
+def gate_open(reasons):
+    return REUSE_GATED or all(r in _GATE.split(",") for r in reasons)
+
+
+def reuse_gated_reason(g):
+    rs = reuse_gated_reasons(g)
+    return "+".join(rs) if rs else None
+
+
+def shared(g, mode, sid=None):
+    """the grading g with its submission objects owned by the caller (unless gated)"""
+    if not gate_open(reuse_gated_reasons(g)):
+        return g
+    return dict(g, share=mode, share_id=sid or "%s|%s|%s" % (g.get("sub"), g.get("main_file", "answer.py"), mode))
+
+
+def kept_by_caller(g, rng):
+    """a pool grading whose submission objects the caller keeps and hands in again: the submission is drawn from a
+    short list, so that several different scripts of one history meet on the same object"""
+    sub = rng.choice(["sections", "sections_long", "openf", "zerodiv"])
+    g = dict(g, sub=sub, code=SUBMISSIONS[sub])
+    if sub == "openf":
+        g["files"] = DATA_FILES
+    return shared(g, rng.choice(["sub", "sub", "files"]))
+
+
+DATA_FILES = {"data.txt": "first line\nsecond line\n", "helper.py": "def helper():\n    return 41\n"}
+
+#: what is graded on the same objects afterwards
+REUSE_PROBES = [["student_out"], ["submission_read"], ["sections_dep"], ["nothing"]]
+
+
+def reuse_histories(fragments, wide=True):
+    """-> [(name, history)]: for every fragment f and every way of sharing: f, f again (the same pair twice, as
+    VerifyPipeline does), then other scripts on the same objects; also f followed by a crash first."""
+    out = []
+    subs = ["sections_long", "sections_edge", "openf", "sections", "sections_bad", "zerodiv"]
+    for n, f in enumerate(fragments):
+        if not gate_open(reuse_gated_reasons({"frags": [f]})):
+            continue
+        touches = f.startswith(("sections", "set_source", "submission"))
+        for mode in ("sub", "files"):
+            h = []
+            for sub in (subs if wide and touches else subs[:3] if touches or wide else [subs[0], subs[2]]):
+                kw = {"files": DATA_FILES} if sub == "openf" else {}
+                if sub == "sections_edge":
+                    kw["main_file"] = "student_main.py"
+                sid = "%s|%s|%s" % (f, sub, mode)
+                firsts = [[f], [f], [f, "crash_zero"]] if mode == "sub" else [[f], [f]]
+                for frags in firsts + REUSE_PROBES:
+                    h.append(shared(G(frags, sub, **kw), mode, sid))
+            out.append(("reuse-%s-%s" % (mode, f), h))
+    return out
+
+
+REUSE_CORPUS = [
+    # the seed C13_G shape: a sections script that resolves normally, the same pair again, then a plain script
+    ("reuse-sections-twice", [shared(G(["sections_dep"], "sections_long"), "sub"), shared(G(["sections_dep"], "sections_long"), "sub"),
+                              shared(G(["student_out"], "sections_long"), "sub")]),
+    ("reuse-files-dict", [shared(G(["sections_dep", "gently"], "sections"), "files"), shared(G(["sections_dep", "gently"], "sections"), "files"),
+                          shared(G(["unit_test"], "sections"), "files")]),
+    ("reuse-other-env", [shared(G(["sections_dep"], "sections", env="blockpy"), "sub"), shared(G(["sections_dep"], "sections"), "sub"),
+                         shared(G(["sections_dep"], "sections", env="terminal"), "sub"),
+                         shared(G(["student_out"], "sections", skip_run=True), "sub")]),
+    ("reuse-data-files", [shared(G(["allow_open"], "openf", files=DATA_FILES), "sub"),
+                          shared(G(["set_source_restore"], "openf", files=DATA_FILES), "sub"),
+                          shared(G(["student_out"], "openf", files=DATA_FILES), "sub")]),
+]
+
+
+# --------------------------------------------------------------------------------------------------
+# the caller's OWN Report object R, passed explicitly (report=R) to the environment and to every command, graded again
+# and again: the same state machine as MAIN_REPORT's, reached through the report= parameters.  R is in the script's
+# namespace; `student` is R's sandbox.
+
+XH = ("from pedal.core.commands import *\nfrom pedal.source import *\nfrom pedal.source.sections import *\nfrom pedal.sandbox.commands import *\n"
+      "from pedal.assertions import *\nfrom pedal.core.feedback import Feedback\n")
+XFRAGMENTS = [
+    ("xr_nothing", ""),
+    ("xr_gently", "gently('hi there', report=R)\n"),
+    ("xr_explain", "explain('You did X', label='did_x', title='X!', report=R)\n"),
+    ("xr_compliment", "compliment('nice', score='+10%', report=R)\ngive_partial(.5, report=R)\n"),
+    ("xr_suppress", "suppress('runtime', report=R)\nsuppress(label='unused_variable', report=R)\n"),
+    ("xr_suppress_algo", "suppress('algorithmic', report=R)\n"),
+    ("xr_hide", "hide_correctness(report=R)\n"),
+    ("xr_formatter", "from pedal.core.formatting import HtmlFormatter\nset_formatter(HtmlFormatter, report=R)\n"),
+    ("xr_override", "from pedal.sandbox.feedbacks import runtime_error, type_error\nruntime_error.override(title='OV-RT', report=R)\ntype_error.override(title='OV-TYPE', priority='low', report=R)\ngently.override(title='OV-GENTLY', report=R)\n"),
+    ("xr_pools", "from pedal.core.commands import set_pools\nimport random\nrandom.seed(3)\nset_pools(2, report=R)\ngently.override_for_pool('A', title='POOL-A', report=R)\ngently.override_for_pool('B', title='POOL-B', report=R)\n"),
+    ("xr_hook", "R.add_hook('pedal.report.add_feedback', lambda fb, report=None: print('HOOK', fb.label))\n"),
+    ("xr_group", "R.start_group('g1')\ngently('in group', report=R)\n"),
+    ("xr_mock", "mock_function('len', lambda x: 99, report=R)\nrun(report=R)\nprint(repr(student.output))\n"),
+    ("xr_inputs", "set_input(['5', '6'], report=R)\nrun(report=R)\nprint(repr(student.output))\n"),
+    ("xr_call", "assert_equal(call('f', 2, report=R), 4, report=R)\n"),
+    ("xr_out", "print(repr(student.output))\n"),
+    ("xr_sections", "separate_into_sections(independent=False, report=R)\nnext_section(report=R)\nverify(report=R)\nrun(report=R)\nprint(repr(student.output))\n"),
+    ("xr_set_source", "from pedal.source.source import restore_code\nset_source('print(3)', report=R)\nrun(report=R)\nprint(repr(student.output))\nrestore_code(report=R)\n"),
+    ("xr_tifa", "from pedal.tifa import tifa_analysis\nprint(sorted(tifa_analysis(report=R).issues))\n"),
+    ("xr_tifa_other", "from pedal.tifa import tifa_analysis\ntifa_analysis('import math\\nmath.extra = 2\\nprint(math.extra)\\n', report=R)\n"),
+    ("xr_resolve", "from pedal.resolvers import simple\ngently('early', report=R)\nsimple.resolve(report=R)\n"),
+    ("xr_clear", "clear_report(report=R)\n"),
+    ("xr_crash", "1 / 0\n"),
+]
+XFRAGMENT = dict(XFRAGMENTS)
+XPROBES = [(["xr_gently"], "ok"), (["xr_nothing"], "zerodiv"), (["xr_nothing"], "typeerr"), (["xr_nothing"], "unused"),
+           (["xr_out"], "printer"), (["xr_call", "xr_compliment"], "ok"), (["xr_out"], "sections_long"),
+           (["xr_tifa"], "mathuse"), (["xr_out"], "input2")]
+#: behind the gate: with a report of the caller's own the resolve hook that puts the whole file back after sections
+#: looks at MAIN_REPORT, so the caller's Submission keeps the last section (unchanged tree, reported)
+XGATED = ("xr_sections",)
+if gate_open(reuse_gated_reasons({"frags": ["xr_sections"]})):
+    XPROBES.append((["xr_sections"], "sections_long"))
+
+
+def XG(frags, sub, **kw):
+    return dict({"frags": list(frags), "sub": sub, "script": XH + "".join(XFRAGMENT[f] for f in frags), "code": _code(sub),
+                 "env": "standard", "report_id": "R"}, **kw)
+
+
+def explicit_report_histories(fragments, rng=None):
+    """-> [(name, history)]: every gradings of a history uses the caller's one Report object; every fragment, alone and
+    followed by a crash, right before every probe; the submissions are the caller's too (the same object when the
+    same submission comes round again)"""
+    out = []
+    for f in fragments:
+        if not gate_open(reuse_gated_reasons({"frags": [f]})):
+            continue
+        h = []
+        for frags in ([f], [f, "xr_crash"]):
+            for pf, ps in XPROBES:
+                sub = "sections_long" if "sections" in f else "uses_len" if f == "xr_mock" else "input" if f == "xr_inputs" else "ok"
+                h.append(shared(XG(frags, sub), "sub"))
+                h.append(shared(XG(pf, ps), "sub"))
+        out.append(("explicit-report-%s" % f, h))
+    return out
+
 
 # Submissions that change the INTERPRETER itself (a real stdlib module, builtins, sys.path, the recursion limit).
 # Pedal runs student code inside the grader's interpreter and restores none of this; each pair is run on its own
